@@ -23,7 +23,7 @@ RULE = (
     "scripts of length <=3 (thorough: <=4, plus a truncated-body fault 't' and body sizes "
     "0,1,1023,1024,1025,2048,5000 around the 1024-byte stream chunk) over {g=correct body, "
     "c=corrupted body, e=empty 200 body, 4=HTTP 404} x checksum behaviour, both constant {o=correct, w=wrong, "
-    "m=unavailable} and scripted sequences of length <=3 over the same alphabet x prior target "
+    "m=unavailable; the checksum file is '<md5>  name', bare, 'md5sum -b' style or naming another path, the wrong checksum is all zeros, another digest, one character short or too long) and scripted sequences of length <=3 over the same alphabet x prior target "
     "file {absent, valid, corrupt}. Requests beyond a script's end answer HTTP 500 (data) / 404 "
     "(checksum). HEAD is unregistered (size probe fails as offline). Oracle: a reference model of "
     "the statement (pre-check, download, verify, exactly one retry on mismatch, raise on "
@@ -33,6 +33,12 @@ RULE = (
     "corrupt-then-good or good-after-error pattern, a checksum behaviour that changes within the "
     "call, or a pre-existing file.")
 ASSUMPTIONS = ['responses 0.x as HTTP mock for requests', 'hashlib.md5']
+
+
+def wrong_checksum(md5_good, fmt):
+    """A published checksum that does not match: all zeros, another MD5, a damaged one (one
+    character lost), or a longer digest."""
+    return ['0' * 32, 'f' * 32, md5_good[:-1], md5_good + '00000000'][(fmt // 4) % 2 * 2 + fmt % 2]
 
 
 def _body(size):
@@ -58,7 +64,7 @@ def _cases(th):
                     k += 1
                     # the checksum file is served as text/plain or as application/octet-stream
                     yield {'data': ds, 'ck': ck, 'ckind': ckind, 'prior': prior, 'size': size,
-                           'ctype': k % 2}
+                           'ctype': k % 2, 'fmt': (k // 2) % 8}
 
 
 def drivers(tier):
@@ -98,7 +104,7 @@ def _model(case, good, corrupt, trunc):
         log['last_md5'] = a
         if a == 'm':
             return None
-        published = md5_good if a == 'o' else '0' * 32
+        published = md5_good if a == 'o' else wrong_checksum(md5_good, case.get('fmt', 0))
         return hashlib.md5(content).hexdigest() == published
 
     def next_data():
@@ -158,10 +164,15 @@ def check(case):
             seen['ck_i'] += 1
         seen['last_md5'] = a
         hdr = {'Content-Type': 'application/octet-stream'} if case.get('ctype') else {}
+        fmt = case.get('fmt', 0)
+        # formats the code accepts (split on the first blank): md5sum style with any name, or the
+        # bare digest WITHOUT a newline (a bare digest followed by a newline is read as a mismatch on
+        # the unchanged tree - it fails safe - and is not generated)
+        tail = ['  file.bin\n', '', ' *file.bin\n', '  ./mirror/other-name.bin\n'][fmt % 4]
         if a == 'o':
-            return (200, hdr, md5_good + '  file.bin\n')
+            return (200, hdr, md5_good + tail)
         if a == 'w':
-            return (200, hdr, '0' * 32 + '  file.bin\n')
+            return (200, hdr, wrong_checksum(md5_good, fmt) + tail)
         return (404, {}, 'not found')
 
     with env.scratch() as d:
@@ -189,7 +200,7 @@ def check(case):
     desc = (case, 'outcome=%s data_requests=%d md5_requests=%d' % (outcome, seen['data'], seen['md5']))
     # (i) the safety property itself, independent of the model
     if outcome == 'return' and seen['last_md5'] in ('o', 'w'):
-        published = md5_good if seen['last_md5'] == 'o' else '0' * 32
+        published = md5_good if seen['last_md5'] == 'o' else wrong_checksum(md5_good, case.get('fmt', 0))
         got = hashlib.md5(content).hexdigest() if content is not None else None
         require(got == published, 'download returned normally but the file fails the published '
                 'checksum', key='bad-file-returned', observed=desc, expected=published)
